@@ -111,6 +111,8 @@ impl<T: Tolerances + Debug> ToleranceHandler<T> {
     }
 
     pub fn update(&mut self, err: MoyoError) {
+        #[cfg(feature = "verif")]
+        crate::verif::trace::push(format!("update {:?} from {:?}", err, self.tolerances));
         // Update stride
         if self.prev_error.is_some() && self.prev_error != Some(err) {
             self.stride = self.stride.sqrt()
